@@ -91,7 +91,14 @@ func (s *sim) doAckSync(g int, n int64, fail bool, rng *rand.Rand) {
 		defer func() { _ = recover() }()
 		h.Ack(n)
 	}()
-	if !gt.waitHit(10 * time.Second) {
+	parked := false
+	select {
+	case <-gt.hit:
+		parked = true
+	case <-adone:
+		// the Ack returned without an msync (it did not move the position): what follows is sequential
+		s.c.Branch("msync/ack-returned-without-msync")
+	case <-time.After(60 * time.Second):
 		gt.open()
 		<-adone
 		s.dead = true
@@ -102,6 +109,9 @@ func (s *sim) doAckSync(g int, n int64, fail bool, rng *rand.Rand) {
 	s.op("acksync", g, n, fmt.Sprintf("acksync %d %d %d", g, n, f), func() string {
 		// the position the Ack has published (atomic load, no lock)
 		seen := h.AcknowledgedSeq()
+		if !parked {
+			seen = pre.g[g].a
+		}
 		sdone := make(chan struct{})
 		go func() {
 			defer close(sdone)
